@@ -331,3 +331,49 @@ def pre_checks(ctx):
         if gitdir:
             subprocess.run(["rm", "-rf", gitdir])
     return out
+
+
+def coq_cases(cases):
+    """revision_valid / rev_manifest / post_init / wf_extra (+ Sha1.sha1 of the manifest) evaluated by vm_compute inside
+    Coq vs the extracted driver (extraction cross-check)"""
+    from . import core
+    def size(c):
+        return sum(len(v) for v in _vals(c)) + sum(len(k) // 2 for k, _ in c["extra"]) + 20 * len(c["parents"])
+    cases[:] = [c for c in cases if size(c) <= 300]      # in place: the evidence's `n` is the number evaluated
+    def nl(h):
+        return "[" + "; ".join("%d" % b for b in bytes.fromhex(h)) + "]%N"
+    def opt(h, f=nl):
+        return "None" if h is None else "(Some %s)" % f(h)
+    def person(h):
+        return "{| fullname := %s; p_name := None; p_email := None |}" % nl(h)
+    def date(d):
+        return "{| ts := {| seconds := (%d)%%Z; microseconds := (%d)%%Z |}; offset_bytes := %s |}" % (d[0], d[1], nl(d[2]))
+    def hdrs(hs):
+        return "[" + "; ".join("(%s, %s)" % (nl(k), nl(v)) for k, v in hs) + "]"
+    def rev(c):
+        legacy = c["legacy"] and c["extra"]
+        return ("{| v_message := %s; v_author := %s; v_committer := %s; v_date := %s; v_committer_date := %s; v_type := RtGit; "
+                "v_directory := %s; v_synthetic := false; v_meta_extra := %s; v_meta_other := []; v_parents := [%s]; "
+                "v_extra_headers := %s; v_raw_manifest := None |}"
+                % (opt(c["message"]), opt(c["author"], person), opt(c["committer"], person), opt(c["date"], date),
+                   opt(c["committer_date"], date), nl(c["directory"]), "(Some %s)" % hdrs(c["extra"]) if legacy else "None",
+                   "; ".join(nl(p) for p in c["parents"]), hdrs([] if legacy else c["extra"])))
+    src = ("From Coq Require Import List NArith ZArith.\nFrom SWH.lib Require Import Bytes Sha1.\nFrom SWH.model Require Import Time Rel Rev.\n"
+           "Import ListNotations.\n" + core.COQ_CHECKSUM +
+           "\nDefinition flat (hs : list (list N * list N)) : list N := concat (map (fun h => fst h ++ [256%N] ++ snd h ++ [257%N]) hs).\n"
+           "Definition cases : list revision := [" + ";\n ".join(rev(c) for c in cases) + "].\n"
+           "Eval vm_compute in map (fun r => if revision_valid r then let m := rev_manifest r in "
+           "cksum (m ++ sha1 m ++ flat (v_extra_headers (post_init r)) ++ [if wf_extra (effective_extra r) then 1%N else 0%N] "
+           "++ rev_manifest (post_init r)) else 1%N) cases.\n")
+    resp = core.run_driver(ID, [requests(c, {})[0] for c in cases])
+    exp = []
+    for r in resp:
+        w = r.split(" ")
+        if w[0] != "ok":
+            exp.append(1 if r == "err ValueError" else 3)
+            continue
+        flat = []
+        for k, v in _dec_headers(w[3]):
+            flat += list(k) + [256] + list(v) + [257]
+        exp.append(core.py_cksum(list(unhx(w[1])) + list(unhx(w[2])) + flat + [int(w[4])] + list(unhx(w[5]))))
+    return src, exp
